@@ -1035,6 +1035,11 @@ func runC33(c *core.Ctx) {
 						use = "="
 					}
 					okUse := allowed[f.Name][use]
+					if !okUse && use == "=" && c33underConstruction(f, sel) {
+						// the constructor equips the store it has just created (initCache spelled in place):
+						// the object is not published yet, no root can have been registered in it
+						okUse = true
+					}
 					if !okUse && f.Parent == nil {
 						// an accessor of the cache (one Get/Add/Remove on its own parameters, nothing else) is the
 						// operation of its callers: allowed when every caller may perform that operation itself
